@@ -27,12 +27,15 @@ chk('C09', 'exploration',
 chk('C05', 'exploration',
     'Every bin of thousands of generated Student comparisons (differences '
     'placed around the critical value, zero errors, NaN/inf on one or both '
-    'sides, alpha over ten decades, ndf None..1e6, 1-4 datasets, shapes () to '
+    'sides, alpha from 1e-40 to 1, ndf None..1e6, 1-4 datasets, shapes () to '
     '4-d) is decided independently from the exact two-sided tail '
     '(scipy.special; mpmath at 50 digits on a sample and near the level) and '
     'compared with oracles(), the verdict, the p-values and test_pvalue(); '
     'four metamorphic relations (swap, 2^k rescaling, growing difference, '
-    'shrinking error) are checked on the real evaluations.',
+    'shrinking error) are checked on the real evaluations; a test object is '
+    'evaluated again after one of its datasets was changed and must describe '
+    'the new data; the result of the previous case is re-read after each '
+    'evaluation (state shared between objects).',
     'scipy.special / mpmath trusted as the law; a relative band of 1e-6 around '
     'the level is not decided; generated values only (no proof over all floats)',
     'runtime monitoring: independent per-bin oracle (exact tail) + metamorphic '
@@ -205,13 +208,18 @@ chk('C14', 'fault_enumeration',
     'payloads of nested containers, arrays, datasets) are written with the '
     'real write_env; every written file is truncated at every byte offset '
     '(complete enumeration), emptied, deleted, bit-flipped and replaced by '
-    'random or foreign pickles, and read back with the real read_env and '
+    'random or foreign pickles, made unopenable (directory in its place, '
+    'output directory replaced by a file, name longer than NAME_MAX), and '
+    'read back with the real read_env and '
     'Env.from_file: reading must never raise, a task comes back exactly when '
     'its file is intact and was written DONE, with the entry written (deep '
     'digest). Histories of 2-5 writes with crashes during the write (an '
     'exception raised from inside a payload while pickling, a child process '
     'that os._exit()s in the middle of pickle.dump, truncation) interleaved '
-    'with reads are checked against a model of what every file holds.',
+    'with reads are checked against a model of what every file holds; task '
+    'names with path separators and the empty name; a task whose output '
+    'directory cannot be written to must not prevent the others from being '
+    'persisted.',
     'truncation = writer killed at any point (to_file empties the file then '
     'streams the pickle); for corrupted files that still unpickle only "no '
     'exception" is required; pickle itself is trusted',
@@ -248,7 +256,11 @@ chk('C13', 'exploration',
     'kind: bool, repr, oracles, counts, per-key views, table / full-table / '
     'plot / full-plot / full representation and Rst.format_result at every '
     'verbosity, fingerprint, pickle round trip, copy, deepcopy; the test is '
-    'evaluated a second time and the two results must have the same digest.',
+    'evaluated a second time and the two results must have the same digest; '
+    'the first cases of every shard are evaluated once more from fresh '
+    'objects at the end of the shard (process history); results over '
+    'decreasing bins, single-precision data, Student results built without '
+    'p-values and names holding rst markup are part of the workload.',
     'digest-based notion of "unchanged"; operations that raise are not '
     'changes',
     'runtime monitoring: deep snapshots around random sequences of read-only '
@@ -267,7 +279,8 @@ chk('C19', 'exploration',
     'the position of the first failure is enumerated completely for lists '
     'of up to four commands; output with carriage returns is compared byte '
     'for byte; CheckoutTask / BuildTask run with GIT / CMAKE pointed at a '
-    'scripted fake tool.',
+    'scripted fake tool; one task object executed twice with another '
+    'environment and output root; commands killed by the optional timeout.',
     '/bin/sh trusted; when do() raises for a program that cannot be started '
     'only status FAILED through the scheduler is required',
     'runtime monitoring: scripted fault injection (exit codes, signals, '
